@@ -335,7 +335,42 @@ def w_sbml_post(case):
             'violations': viol}
 
 
-WORKERS = {'posterior': w_post, 'wrapped': w_post, 'sbml': w_sbml_post}
+def w_user_model(case):
+    """A posterior built from a user mechanistic model that already has a fixed
+    parameter keeps its own fixed value whatever the user does to the model later."""
+    viol = []
+    user = chi.ReducedMechanisticModel(ToyModel(3, 1))
+    user.fix_parameters({'p2': 0.8})
+    y = np.array([[[1.0, 2.0, 1.5]], [[1.4, 2.6, 1.1]]])
+    pop = popbuild.build(rp.Comp([rp.LN(1), rp.P(1)]), None)
+    post = chi.PopulationFilterLogPosterior(
+        chi.GaussianFilter(y), [0.5, 2.0, 1.0], user, pop, hier.build_prior(3),
+        sigma=[0.3], n_samples=3)
+    n = post.n_parameters()
+    x = np.array(vals.reals('c13.um', n, 0.3, 0.9, case['seed']))
+    before = [post(x.copy()), post.evaluateS1(x.copy())[0]]
+    for op in case['ops']:
+        if op == 'refix':
+            user.fix_parameters({'p2': 1.9})
+        elif op == 'release':
+            user.fix_parameters({'p2': None})
+        elif op == 'fix_other':
+            user.fix_parameters({'p0': 0.4})
+        elif op == 'simulate':
+            user.simulate([0.5] * user.n_parameters(), [0.3, 0.9])
+    after = [post(x.copy()), post.evaluateS1(x.copy())[0]]
+    if not all(tol.close(a_, b_) for a_, b_ in zip(after, before)) or \
+            not np.isfinite(before[0]):
+        viol.append({'sub': 'user_model', 'message': 'the filter posterior changed '
+                     'when the user reconfigured the mechanistic model it was built '
+                     'from (%s)' % case['ops'], 'expected': before,
+                     'observed': after, 'behaviour': 'user_model'})
+    return {'transitions': len(case['ops']) + 5, 'outcome': tol.rnd(before, 8),
+            'violations': viol}
+
+
+WORKERS = {'posterior': w_post, 'wrapped': w_post, 'sbml': w_sbml_post,
+           'user_model': w_user_model}
 
 
 def make_case(spec, filt, sigma_free, log_scale, ns, times, n_obs, seed,
@@ -365,7 +400,7 @@ def make_case(spec, filt, sigma_free, log_scale, ns, times, n_obs, seed,
 
 def build(tier, seed):
     # (every class in both tiers)
-    kinds = ['G', 'Gnc', 'LN', 'LNnc', 'TG', 'P', 'H', 'Cov(G)', 'Cov(LNnc)']
+    kinds = ['G', 'Gnc', 'LN', 'LNnc', 'TG', 'P', 'H', 'Cov(G)', 'Cov(LNnc)', 'Cov(TG)']
     structs = hier.structures(N_DIM, kinds)
     t3 = sorted(vals.reals('c13.t', 3, 0.2, 3.0, seed))
     perms = [list(p) for p in itertools.permutations(range(3))]
@@ -457,8 +492,14 @@ def build(tier, seed):
                     sb.append({'direct': direct, 'sigma_fixed': sf,
                                'log_scale': log_scale, 'ops': list(ops),
                                'seed': seed})
+    um_ops = ['refix', 'release', 'fix_other', 'simulate']
+    um = [{'ops': list(seq), 'seed': seed} for d_ in (1, 2)
+          for seq in itertools.product(um_ops, repeat=d_)]
     return {
-        'parts': [Part('sbml', sb, w_sbml_post,
+        'parts': [Part('user_model', um, w_user_model,
+                       'posterior built from a user model with a fixed parameter: '
+                       'every sequence of <= 2 later reconfigurations by the user'),
+                  Part('sbml', sb, w_sbml_post,
                        'filter posterior around the dosed library model (direct / '
                        'indirect route): every history of three evaluations with / '
                        'without sensitivities'),
